@@ -43,7 +43,9 @@ impl Event {
                 data
             }
         };
-        for line in data.lines() {
+        // An EventSource parser ends a line at CRLF, LF or CR.  Split the data the same way, so that
+        // no part of it is taken for another field.  Empty data still gets its `data` field.
+        for line in data.replace("\r\n", "\n").split(|c| c == '\n' || c == '\r') {
             write!(buf, "data: {line}\n")?;
         }
         Ok(original_buf_len - buf.len())
@@ -58,7 +60,8 @@ impl Event {
                 data
             }
         };
-        for line in data.lines() {
+        // Same line splitting as in `write_to`.
+        for line in data.replace("\r\n", "\n").split(|c| c == '\n' || c == '\r') {
             write!(buf, "data: {line}\n").unwrap();
         }
     }
